@@ -734,16 +734,27 @@ def _check_counter(ctx: Ctx, res: RuleResult, cb: Func, counter: Term) -> None:
     if not names:
         return
     fieldname = names[-1]
+    # the callback and the private single-use methods it is cut into
+    from ..util import enclosing_ifs_ctx, unique_caller
+
+    pieces = [cb]
+    for h in ctx.cg.reachable([cb], include_nested_values=False):
+        if h is not cb and h.cls is cb.cls and h.name.startswith("_"):
+            uc = unique_caller(ctx, h)
+            if uc is not None and (uc[0] is cb or uc[0] in pieces):
+                pieces.append(h)
     incs = []
-    for n in nodes_in(cb, ast.AugAssign):
-        if isinstance(n.target, ast.Attribute) and n.target.attr == fieldname and isinstance(n.op, ast.Add):
-            incs.append(n)
+    for h in pieces:
+        for n in nodes_in(h, ast.AugAssign):
+            if isinstance(n.target, ast.Attribute) and n.target.attr == fieldname and isinstance(n.op, ast.Add):
+                incs.append((h, n))
     if not incs:
         res.add(cb, cb.node, f"`{fieldname}` is incremented by the number of delivered function results", False,
                 f"no `self.{fieldname} += ...` in the optimizer callback: the budget is never consumed",
                 construct=f"increment of {fieldname}")
         return
-    for n in incs:
+    cb0 = cb
+    for cb, n in incs:
         t = ctx.X.at(cb, n.value)
         ok = t[0] == "call" and t[1] == ("builtin", "len")
         detail = ""
@@ -774,12 +785,7 @@ def _check_counter(ctx: Ctx, res: RuleResult, cb: Func, counter: Term) -> None:
         else:
             detail = f"increment is `{show(t, 80)}`, not the number of function results"
         # control dependence on return_functions
-        cur = parent(n)
-        dep = False
-        while cur is not None and cur is not cb.node:
-            if isinstance(cur, ast.If) and any(isinstance(x, ast.Name) and x.id == "return_functions" for x in ast.walk(cur.test)):
-                dep = True
-            cur = parent(cur)
+        dep = any(any(isinstance(x, ast.Name) and x.id == "return_functions" for x in ast.walk(cur.test)) for _gf, cur in enclosing_ifs_ctx(ctx, cb, n))
         if ok and not dep:
             ok, detail = False, "increment is not conditional on `return_functions`"
         res.add(cb, n, f"`{fieldname}` grows by len(<function results>) exactly where functions were returned", ok, detail)
